@@ -94,6 +94,25 @@ Example C12_witness :
   Ok (mkTwoQ 2 0 (mkLru 2 [(4, 4); (3, 3)] false) (mkLru 2 [] false) (mkLru 1 [(2, 2)] false), PEvicted 1 1).
 Proof. vm_compute. split; reflexivity. Qed.
 
+(** with two slots or more the exception above concerns ghosts only: an entry that is *resident* before a [put]
+    (and is not the key being put) is still retained afterwards — as a resident entry or as a ghost *)
+Theorem C12_arc_residents_kept : forall s k v s' r,
+  arc_inv s -> (2 <= asize s)%nat -> aput s k v = Ok (s', r) ->
+  forall e, In e (items (t1 s) ++ items (t2 s)) -> fst e <> k -> In e (retained_a s').
+Proof. exact arc_residents_kept. Qed.
+
+(** ... and with a single slot it can happen: the victim becomes the only ghost of a list that is trimmed in the
+    same call (put 4, put 4, put 0, put 0, put 1 at size 1 loses the resident entry 0) *)
+Example C12_arc_size_one_loses_a_resident :
+  let run := fun s kv => match s with Ok (st, _) => aput st (fst kv) (snd kv) | Panic n => Panic n end in
+  let s4 := List.fold_left run [(4, 10); (4, 11); (0, 20); (0, 21)]%Z (Ok (arc_new 1, PPut)) in
+  match s4 with
+  | Ok (st, _) => items (t2 st) = [(0, 21)]%Z /\
+                  match aput st 1 30 with Ok (st', r) => r = PPut /\ retained_a st' = [(1, 30)]%Z | Panic _ => False end
+  | Panic _ => False
+  end.
+Proof. vm_compute. split; [reflexivity|split; reflexivity]. Qed.
+
 Print Assumptions C12_put_truth_def.
 Print Assumptions C12_lru.
 Print Assumptions C12_lru_capacity_zero.
@@ -104,3 +123,4 @@ Print Assumptions C12_arc.
 Print Assumptions C12_wtiny.
 Print Assumptions C12_or_put.
 Print Assumptions C12_structural.
+Print Assumptions C12_arc_residents_kept.
